@@ -191,6 +191,127 @@ def oracle(kind, progs, sc, world, sent_objs, complete):
     return None
 
 
+# ---------------------------------------------------------------- MultiPort (fan-in and fan-out): implementation against the statement
+class MultiWorld:
+    """MultiPort over two EchoPorts; ports[0] is the MultiPort, ports[1], ports[2] the sub-ports; every lock and deque is scheduled"""
+
+    def __init__(self, sc):
+        import mido.ports as ports
+        self.sc, self.sleeps = sc, [0]
+        subs = [ports.EchoPort(), ports.EchoPort()]
+        multi = ports.MultiPort(subs)
+        self.ports = [multi] + subs
+        self.real, self.poplogs = [], []
+        for p in self.ports:
+            p._lock = S.SchedLock(sc)
+            real, log = p._parser.messages, []
+            p._messages = S.DequeProxy(sc, real, log)
+            self.real.append(real); self.poplogs.append(log)
+        self.saved = ports.sleep, ports.random.shuffle
+        world = self
+
+        def fake_sleep():
+            sc.yield_point('sleeping')
+            world.sleeps[0] += 1
+        ports.sleep = fake_sleep
+        ports.random.shuffle = lambda x: None
+
+    def restore(self):
+        import mido.ports as ports
+        ports.sleep, ports.random.shuffle = self.saved
+
+
+def execute_multi(kind, progs, policy, max_steps):
+    sc = S.Sched(len(progs))
+    world = MultiWorld(sc)
+    sent, partial = [], {}
+
+    def body_for_multi(prog, t):
+        def body(results):
+            for op in prog:
+                port = world.ports[op[-1]]
+                if op[0] == 'send':
+                    m = mk(op[1])
+                    sent.append((t, op[-1], m, m.copy()))
+                    port.send(m)
+                    results.append(('sent',))
+                elif op[0] == 'recv':
+                    results.append(('got', port.receive(block=bool(op[1]))))
+                else:
+                    acc = []
+                    partial[t] = acc
+                    for m in port.iter_pending():
+                        acc.append(m)
+                    results.append(('list', acc))
+                    partial[t] = []
+        return body
+    try:
+        sc.start([body_for_multi(p, t) for t, p in enumerate(progs)])
+        cur_t, spins = None, 0
+        while len(sc.trace) < max_steps and any(st != 'done' for st in sc.state):
+            t = policy(sc, cur_t, False)
+            if t is None:
+                break
+            sc.step(t)
+            cur_t = t
+            if sc.state[t] == 'sleeping' and not any(sc.enabled(u) for u in range(sc.n) if u != t):
+                spins += 1
+                if spins >= 2:
+                    break
+        complete = all(st == 'done' for st in sc.state)
+        trace = list(sc.trace)
+    finally:
+        sc.stop()
+        world.restore()
+    fail = None
+    key = lambda m: tuple(canon.msg_ints(m))
+    for t, oc in enumerate(sc.outcome):
+        if oc is not None and oc[0] == 'raised':
+            fail = ('raises:' + type(oc[1]).__name__, 'MultiPort scenario, thread %d: %r under the schedule %r' % (t, oc[1], trace))
+    if fail is None:
+        received = []
+        for t in range(len(progs)):
+            for r in sc.results[t]:
+                if r[0] == 'got' and r[1] is not None:
+                    received.append(r[1])
+                elif r[0] == 'list':
+                    received += r[1]
+            received += partial.get(t, [])
+        # a message sent on a sub-port exists once; one sent on the MultiPort once per sub-port; it may sit in any queue or have been handed out
+        expected = {}
+        for t, pidx, m, c in sent:
+            expected[key(c)] = 2 if pidx == 0 else 1
+        # copies that moved from a sub-port into the MultiPort's queue were popped from the sub-port: count only final places
+        final = [key(m) for m in received] + [key(m) for real in world.real for m in real]
+        for k in set(final):
+            if k not in expected:
+                fail = ('not-intact', 'MultiPort scenario: a message nobody sent turned up: %r (schedule %r)' % (k, trace))
+            elif final.count(k) > expected[k]:
+                fail = ('duplicate', 'MultiPort scenario: %r exists %d times, expected at most %d (schedule %r)' % (k, final.count(k), expected[k], trace))
+        if fail is None and complete:
+            for k, n in expected.items():
+                if final.count(k) != n:
+                    fail = ('lost', 'MultiPort scenario: %r exists %d times at the end, expected %d (schedule %r)' % (k, final.count(k), n, trace))
+        if fail is None:
+            for d in range(3):
+                order = [key(m) for m in world.poplogs[d]] + [key(m) for m in world.real[d]]
+                for t in range(len(progs)):
+                    for e in range(3):
+                        mine_ = [key(c) for tt, pidx, _, c in sent if tt == t and pidx == e]
+                        seen = [k for k in order if k in mine_]
+                        first = []
+                        for k in seen:
+                            if k not in first:
+                                first.append(k)
+                        if first != [k for k in mine_ if k in first]:
+                            fail = ('order', 'MultiPort scenario: messages of sender %d on port %d left queue %d in the order %r, sent %r (schedule %r)' % (t, e, d, seen, mine_, trace))
+        if fail is None:
+            objs = {id(m) for _, _, m, _ in sent}
+            if any(id(m) in objs for m in received):
+                fail = ('not-a-copy', 'MultiPort scenario: a received message is the very object that was sent')
+    return trace, [], fail
+
+
 # ---------------------------------------------------------------- policies
 def explicit(trace):
     it = iter(trace)
@@ -213,7 +334,7 @@ def default_choice(sc, cur_t):
     return None
 
 
-def explore(kind, progs, max_preempt, max_steps, limit):
+def explore(kind, progs, max_preempt, max_steps, limit, executor=None):
     """every schedule with at most max_preempt preemptions (stateless depth-first search; each schedule is a fresh run)"""
     runs = []
     stack = [([], 0)]
@@ -237,7 +358,7 @@ def explore(kind, progs, max_preempt, max_steps, limit):
                         alts.append((i, t, pre + cost))
             return d
         policy.pre = used
-        trace, out, fail = execute(kind, progs, policy, max_steps)
+        trace, out, fail = (executor or execute)(kind, progs, policy, max_steps)
         runs.append((trace, out, fail))
         for i, t, pre in alts:
             stack.append((trace[:i] + [t], pre))
@@ -315,6 +436,19 @@ def impl_replay(case):
 def job(j):
     mode, kind, progs, arg, seed = j
     rng = random.Random(seed)
+    if kind == 'multi':
+        if mode == 'explore':
+            runs, exhausted = explore(kind, progs, arg[0], arg[1], arg[2], executor=execute_multi)
+        else:
+            runs = [execute_multi(kind, progs, random_policy(rng, rng.choice([0.1, 0.3, 0.6])), arg[1]) for _ in range(arg[0])]
+            exhausted = False
+        rec = {'n': len(runs), 'dis': [], 'fail': [], 'dist': {'multi:' + mode: len(runs)}, 'hashes': {hash(tuple(r[0])) for r in runs}, 'ndis': 0, 'nfail': 0}
+        for trace, _, fail in runs:
+            if fail is not None:
+                rec['nfail'] += 1
+                if len(rec['fail']) < 20:
+                    rec['fail'].append((fail[0], fail[1], {'component': 'multiport', 'programs': repr(progs), 'schedule': trace}))
+        return (kind, mode, exhausted, len(runs)), rec
     if mode == 'explore':
         runs, exhausted = explore(kind, progs, arg[0], arg[1], arg[2])
     elif mode == 'random':
@@ -378,6 +512,17 @@ def run(out):
         for progs in more:
             jobs.append(('random', kind, progs, (25 if quick else 300, 400), rng.randrange(1 << 30)))
             jobs.append(('priority', kind, progs, (10 if quick else 100, 400), rng.randrange(1 << 30)))
+    m1, m2, m3 = programs(rng, quick)[0][0][0][0][1], programs(rng, quick)[0][1][0][0][1], programs(rng, quick)[0][1][0][1][1]
+    multi_progs = [
+        [[('send', m1, 1)], [('send', m2, 2)], [('recv', 0, 0)], [('recv', 0, 0)]],                      # fan-in, two pollers
+        [[('send', m1, 1), ('send', m2, 1)], [('recv', 1, 0)], [('iterp', 0)]],                           # fan-in, order from one sender
+        [[('send', m1, 0)], [('recv', 0, 1)], [('recv', 0, 2)], [('recv', 0, 1)]],                        # fan-out
+        [[('send', m1, 1)], [('send', m2, 2)], [('recv', 1, 0)], [('recv', 0, 1)]],                       # via the MultiPort and directly
+        [[('send', m1, 0), ('send', m2, 1)], [('iterp', 0)], [('recv', 0, 2), ('recv', 0, 0)]],
+    ]
+    for progs in multi_progs:
+        jobs.append(('explore', 'multi', progs, (1 if quick else 2, 140, 700 if quick else 20000), rng.randrange(1 << 30)))
+        jobs.append(('random', 'multi', progs, (40 if quick else 1000, 300), rng.randrange(1 << 30)))
     explored = {}
     for (kind, mode, exhausted, nruns), rec in core.pmap(job, jobs):
         core.merge_into(out, rec, '%s port, %s schedules' % (kind, mode))
@@ -390,7 +535,8 @@ def run(out):
                 'deterministic scheduler whose yield points are the lock, the deque and the device; for %d small programs every schedule with at most %d preemptions '
                 '(depth-first, stateless), for %d larger ones seeded random and priority schedules; each executed schedule is replayed on the model (same thread ids, same '
                 'steps) and the per-thread results, the final queue, the device buffer and the number of sleeps are compared; the oracle checks on the real run: no exception, '
-                'nothing lost / duplicated / invented, per-sender order, received objects are copies. Non-trivial: every run; distinct by schedule.'
+                'nothing lost / duplicated / invented, per-sender order, received objects are copies. MultiPort (fan-in from and fan-out to two EchoPorts, every lock and deque '
+                'scheduled): the same oracle on the real run, not modelled. Non-trivial: every run; distinct by schedule.'
                 % (len(small), 2 if quick else 3, len(more)))
     out.sample({'component': COMP, 'case': enc_case('echo', small[0], [0, 0, 0, 1, 1, 1, 1, 2, 2, 2])})
     cases = [enc_case(k, small[i % len(small)], [rng.randrange(len(small[i % len(small)])) for _ in range(40)]) for i, k in enumerate(['echo', 'device', 'ioport'] * 10)]
